@@ -83,6 +83,11 @@ CHECKS.update({
    text="For each of the four message structures the base message and every value within 2 deviations (boundary values of every scalar, string lengths 0/1/255/4096 and raw octets, every optional grouped AVP present/absent) is marshalled, written, re-read and unmarshalled and compared field by field; every avp tag of every struct of ccs_diameter/datatype (registry generated from the tree) must resolve in the loaded dictionaries with a matching data type, and AVP codes/names in the chf dictionaries must be unique.",
    ref="6 C17", note=TB_E2),
 })
+CHECKS.update({
+ "C19": dict(engine=E1, technique="stateless deviation-bounded schedule exploration (controlled goroutine scheduler + virtual time) of the real CHF / go-diameter / peer servers: every placement of up to k answer-delay or timer-first deviations",
+   text="One subscriber sends consecutive updates with pairwise different requested amounts and then a fault-free probe; from the default schedule every placement of up to k deviations (quick: k=1 on three updates and k=2 on two updates; thorough: k=2 / k=3) is executed to completion, where a deviation delays the delivery of an answer beyond the 5 s client time-out at the client connection or at the client's dispatcher, or lets the clock run first. Each execution is checked for cross-talk (grant or reservation not matching the update's own request), requests blocked forever (decided by the scheduler in virtual time) and a failing probe.",
+   ref="6 C19", note=TB_E1),
+})
 NA_REASON = "check under construction (see DESIGN.md section 6)"
 
 m = {"version": 1, "setup_cmd": "./setup.sh",
